@@ -72,3 +72,12 @@ def steps_text(case, upto=None):
         if upto is not None and s + 1 >= upto:
             break
     return out
+
+
+def hpwl_answers(records):
+    """distinct (HP one-shot case line, value hpwl() returned inside the sequence) pairs -> first record showing it"""
+    out = {}
+    for r in records:
+        if r.hp is not None and r.hpwl is not None:
+            out.setdefault((r.hp, r.hpwl), r)
+    return out
